@@ -97,11 +97,15 @@ def term_types(t):
         return []
 
 def display_raw(s):
-    """Display unparsed type or term."""
-    if isinstance(s, str):
-        return [pprint.N(s)]
+    """Display unparsed type or term: the lines when highlighting, and
+    the text itself (as for parsed types and terms) for editing.
+
+    """
+    lines = [s] if isinstance(s, str) else s
+    if settings.highlight:
+        return [pprint.N(line) for line in lines]
     else:
-        return [pprint.N(line) for line in s]
+        return '\n'.join(lines)
 
 def display_term(t):
     """Display parsed term."""
